@@ -89,25 +89,29 @@ Lemma start_body_shape st br n : start_names_ok br n = true ->
     (h = "#"%char \/ exists mid', h = "/"%char /\ mid = String "/" mid').
 Proof.
   intro H. unfold start_names_ok in H. apply andb_true_iff in H as [Hn Hw].
+  assert (EQ : forall x y z : string, ((x ++ y) ++ z = x ++ y ++ z)%string) by (intros; apply sapp_assoc).
   destruct n as [|t].
   - destruct st.
-    + exists "#"%char, " thailint: ignore-star", "t"%char. repeat split; auto.
-    + exists "/"%char, "/ thailint: ignore-star", "t"%char. repeat split; auto. right. now exists " thailint: ignore-star".
+    + exists "#"%char, " thailint: ignore-star", "t"%char. split; [reflexivity|split; [reflexivity|split; [reflexivity|now left]]].
+    + exists "/"%char, "/ thailint: ignore-star", "t"%char. split; [reflexivity|split; [reflexivity|split; [reflexivity|]]].
+      right. now exists " thailint: ignore-star".
   - destruct br.
     + destruct st.
-      * exists "#"%char, (" thailint: ignore-start[" ++ t)%string, "]"%char. repeat split; auto.
-        cbn [cm start_tail append]. now rewrite !sapp_assoc.
-      * exists "/"%char, ("/ thailint: ignore-start[" ++ t)%string, "]"%char. repeat split; auto.
-        { cbn [cm start_tail append]. now rewrite !sapp_assoc. }
-        right. now exists (" thailint: ignore-start[" ++ t)%string.
+      * exists "#"%char, (" thailint: ignore-start[" ++ t)%string, "]"%char.
+        split; [reflexivity|split; [reflexivity|split; [|now left]]].
+        cbn [cm start_tail append]. now rewrite ?sapp_assoc.
+      * exists "/"%char, ("/ thailint: ignore-start[" ++ t)%string, "]"%char.
+        split; [reflexivity|split; [reflexivity|split; [|right; now exists (" thailint: ignore-start[" ++ t)%string]]].
+        cbn [cm start_tail append]. now rewrite ?sapp_assoc.
     + cbn [orb] in Hw. destruct (names_parts t Hn) as (Hne & _ & _).
-      destruct (word_snoc t Hne Hw) as (w' & c & E & Hc).
+      destruct (word_snoc t Hne Hw) as (w' & c & E & Hc). apply wchar_vchar in Hc.
       destruct st.
-      * exists "#"%char, (" thailint: ignore-start " ++ w')%string, c. repeat split; auto using wchar_vchar.
-        cbn [cm start_tail append]. rewrite E. now rewrite !sapp_assoc.
-      * exists "/"%char, ("/ thailint: ignore-start " ++ w')%string, c. repeat split; auto using wchar_vchar.
-        { cbn [cm start_tail append]. rewrite E. now rewrite !sapp_assoc. }
-        right. now exists (" thailint: ignore-start " ++ w')%string.
+      * exists "#"%char, (" thailint: ignore-start " ++ w')%string, c.
+        split; [reflexivity|split; [exact Hc|split; [|now left]]].
+        cbn [cm start_tail append]. rewrite E. now rewrite ?sapp_assoc.
+      * exists "/"%char, ("/ thailint: ignore-start " ++ w')%string, c.
+        split; [reflexivity|split; [exact Hc|split; [|right; now exists (" thailint: ignore-start " ++ w')%string]]].
+        cbn [cm start_tail append]. rewrite E. now rewrite ?sapp_assoc.
 Qed.
 
 Lemma start_marker_present ind st br n : line_ok (LStart ind st br n) = true ->
@@ -161,9 +165,9 @@ Proof.
         assert (P : prefix_lit ci "ignore-start" ("ignore-start" ++ String " " (String c0 w0)) = true) by (destruct ci; reflexivity).
         rewrite P. change (sdrop (String.length "ignore-start") ("ignore-start" ++ String " " (String c0 w0))) with (String " " (String c0 w0)).
         now rewrite (space_group_word c0 w0 Hc0 Hw0). }
-      cbn [start_rules]. rewrite <- (strip_word (String c0 w0) eq_refl Hw) at 2.
+      cbn [start_rules].
       destruct (q_start_rules_from_code q).
-      * rewrite (space_at L false "ignore-start" H0 eq_refl eq_refl), Sp. reflexivity.
+      * rewrite (space_at L false "ignore-start" H0 eq_refl eq_refl), Sp. now rewrite (strip_word (String c0 w0) eq_refl Hw).
       * rewrite (bracket_at L true "ignore-start" H0 eq_refl eq_refl).
         assert (Br : re_bracket true "ignore-start" ("ignore" ++ post_of L) = None).
         { change ("ignore" ++ post_of L)%string with (String "i" ("gnore-start " ++ String c0 w0)).
@@ -173,7 +177,7 @@ Proof.
           rewrite lower_app. change (lower "gnore-start ") with "gnore-start ".
           rewrite (count_app_lit K "gnore-start " _ K_nonempty eq_refl). change (count_occ K "gnore-start ") with 0. cbn [plus].
           now apply kfree_count. }
-        rewrite Br, (space_at L true "ignore-start" H0 eq_refl eq_refl), Sp. reflexivity.
+        rewrite Br, (space_at L true "ignore-start" H0 eq_refl eq_refl), Sp. now rewrite (strip_word (String c0 w0) eq_refl Hw).
 Qed.
 
 (* ---------- classification ---------- *)
